@@ -8,5 +8,6 @@ CONSTANTS
   TRuns <- MCTRuns
   Top <- MCTop
   Depth = 3
+  MaxGens = 3
 INVARIANTS AlgoFreshIsSpec StoredIsUnion HLeaf
 CHECK_DEADLOCK FALSE
